@@ -45,6 +45,8 @@ def arr_iterate(vm, it):
     st = vm.state
     if isinstance(it, SRef) and it.t.eq(st['self'].t):
         return IterSelf(st['values'])
+    if it is st['values']:
+        return IterSelf(st['values'])        # `for value in self._values`: the same sequence, named directly
     return NotImplemented
 
 
@@ -71,7 +73,17 @@ def arr_call(vm, fn, args, kwargs, node):
     if isinstance(fn, OpaqueFn) and fn.attr == 'encode':
         vm.oblige('call.element encode:endianness passed unchanged', args[0].t == st['e'].t, 'call', vm.cur_line)
         return SBytes(st['ENC'](fn.owner.t))
+    if isinstance(fn, OpaqueType) and not args and not kwargs:
+        return vm.fresh_ref('blank_element', None)      # self._TYPE(): a new element object, none of the stored values
     return NotImplemented
+
+
+def arr_list_repeat(vm, seq, n):
+    """[x] * n with a symbolic count: n references to the same object (none when n <= 0)"""
+    if len(seq) != 1 or not isinstance(seq[0], SRef):
+        return NotImplemented
+    k = vm.as_int(n)
+    return SSeq(z3.If(k > 0, k, 0), lambda i: seq[0], 'repeat')
 
 
 def arr_bytes_join(vm, sep, arg):
@@ -82,7 +94,7 @@ def arr_bytes_join(vm, sep, arg):
         return NotImplemented
     g = arg.node.generators[0]
     it = vm.eval(g.iter, arg.env)
-    if isinstance(it, SRef):
+    if isinstance(it, SRef) or it is st['values']:
         it = arr_iterate(vm, it)
     vm.oblige('call.join:over self, all elements in order', isinstance(it, IterSelf) and not g.ifs and len(arg.node.generators) == 1,
               'call', vm.cur_line)
@@ -113,7 +125,8 @@ def arr_post(limited):
 for _cls, _comp, _lim in (('fixed_scalar_array', False, False), ('bound_scalar_array', False, True),
                           ('fixed_composite_array', True, False), ('bound_composite_array', True, True)):
     Contract(CONTAINER, '%s._encode_impl' % _cls, ['C01', 'C19'], arr_setup(_cls, _comp), arr_post(_lim), shapes=RT, modifies=[],
-             hooks={'iterate': arr_iterate, 'getattr': arr_getattr, 'call': arr_call, 'bytes_join': arr_bytes_join},
+             hooks={'iterate': arr_iterate, 'getattr': arr_getattr, 'call': arr_call, 'bytes_join': arr_bytes_join,
+                    'list_repeat': arr_list_repeat},
              notes=['J(k): concatenation of the first k element encodings (definition of b"".join)'])
 
 
